@@ -408,6 +408,14 @@ func (s *Store) lookupSecretInternal(ctx context.Context, name string) (Secret, 
 
 			s.active.Lock()
 			defer s.active.Unlock()
+			if _, ok := s.active.m[name]; ok {
+				// An earlier flight installed the secret after this caller found
+				// it missing. Keep that entry: replacing it here would change the
+				// value of a secret that may already be watched without waking
+				// its watchers, and the next poll would find nothing newer to
+				// report. If the service has moved on, the poll picks it up.
+				return s.secretLocked(name), nil
+			}
 			s.active.m[name] = &cachedSecret{Secret: sv, LastAccess: s.timeNow().Unix()}
 			if err := s.flushCacheLocked(); err != nil {
 				s.logf("WARNING: error flushing cache: %v", err)
